@@ -7,7 +7,8 @@ direction (`/` for div_ceil), saturating for checked, min for max, a value scale
 while every guard, call and comparison stays in place.  The table (rules/arith_table.json, per build profile) holds the counts of the reviewed
 tree; for a function the table knows, no kind (group, flavour) is lost or gained altogether (plain count changes are not judged: hoisting,
 arm splitting and merging change them without changing behaviour).  Comparisons and bool `|` / `&` are not counted (the guard rules normalise and judge them); new
-functions are not judged.  Like every census here, moving arithmetic into a helper needs a reviewed table update."""
+functions are not judged.  A kind that a function loses is accepted when a workspace function it calls performs it (the arithmetic was moved into a
+helper), a kind it gains when a reviewed function of the same file that performed it is gone (a helper was inlined)."""
 import json, os, collections, re
 from engine import *
 
@@ -35,10 +36,12 @@ def classify(f):
 	return None
 
 _C = {}
+_CALLEES = {}
 
 def census(F):
 	if F.dir in _C:
 		return _C[F.dir]
+	_CALLEES[F.dir] = {}
 	tab = collections.Counter()
 	where = {}
 	known = collections.defaultdict(set)
@@ -75,6 +78,9 @@ def census(F):
 		for b, ci in fu.calls():
 			if fu.is_cleanup(b):
 				continue
+			cf = norm(ci.get('f') or ci.get('t') or '')
+			if cf.startswith(('lightning', '<lightning')):
+				_CALLEES[F.dir].setdefault((fl, tail), set()).add(root_fn(cf).rsplit('::', 1)[-1])
 			c = classify(norm(ci.get('f') or '')) or (classify(norm(ci.get('t'))) if ci.get('t') else None)
 			if c:
 				k = (fl, tail, c[0], c[1]); tab[k] += 1; where.setdefault(k, (n, fu.line_of(b)))
@@ -112,6 +118,18 @@ def rule(F, rule_id, file_res, floor=1):
 		# often an operation is written without changing what is computed (three negative controls raised exactly these alarms against the first,
 		# count-exact version of this rule).
 		if (a == 0) != (b == 0):
+			if b == 0:
+				# the kind moved into a helper the function now calls (an existing one, or one extracted from it): some workspace callee performs it
+				by_tail = {}
+				for (fl2, t2, g2, fv2), c2 in tab.items():
+					if c2:
+						by_tail.setdefault(t2, set()).add((g2, fv2))
+				if any((g, fv) in by_tail.get(ct, ()) for ct in _CALLEES[F.dir].get((fl, tail), ())):
+					continue
+			else:
+				# the kind came in with a helper that was inlined: a reviewed function of the same file that performed it no longer exists
+				if any(r[0] == fl and r[2] == g and r[3] == fv and r[4] and r[1] not in known.get(fl, ()) for r in T['counts']):
+					continue
 			fn, line = where.get(k, (None, None))
 			if fn is None:
 				cands = [x for x in F.fns if root_fn(x).rsplit('::', 1)[-1] == tail and F.fns[x]['file'].endswith(fl.split(':', 1)[1])]
